@@ -317,6 +317,15 @@ def statement_programs(tier, rnd):
             out.append(spec_single("partsel", "%s%d[%d] == 1 & bit relation" % (ty[0], ty[1], i),
                                    [fld("a", ty), fld("b", ty)],
                                    [E(["==", ["bit", a, i], ["ulit", 1, 1]]), E(["!=", ["bit", b, i], ["bit", a, i]])]))
+    # ---- a composite expression on the left, a list subscript on the right (the subscript's type is a subclass of the left one's:
+    # Python tries its reflected comparison first)
+    lfx = [fld("a", ("u", 8)), fld("b", ("u", 8)), ["l", "list", ["u", 8], 3, True, False]]
+    for op in ("<", "<=", ">", ">=", "==", "!="):
+        for lhs in (["+", a, lit(1)], ["-", a, b], ["ps", a, 7, 4], ["&", a, lit(15)]):
+            st = [E([op, lhs, F("l", 1)])]
+            out.append(spec_single("subscript_rhs", "%s %s l[1]" % (lhs, op), lfx, st))
+        out.append(spec_single("subscript_rhs", "(a+1) %s l[i] in foreach" % op, lfx, [["foreach", ["l"], "i", [E([op, ["+", a, lit(1)], F("l", ["idx", "i"])])]]]))
+        out.append(spec_single("subscript_rhs", "l[0]+1 %s l[2]" % op, lfx, [E([op, ["+", F("l", 0), lit(1)], F("l", 2)])]))
     # ---- unique
     for tys in ([("u", 2)] * 3, [("u", 2)] * 4, [("u", 8), ("s", 8), ("u", 4)], [("s", 4)] * 3, [("u", 2)] * 5):
         fields = [fld(n, t) for n, t in zip("abcde", tys)]
@@ -801,7 +810,25 @@ def c02_programs(tier, sd):
     if tier == "quick":
         base = [s for i, s in enumerate(base) if s["tag"] != "atomic" or i % 3 == 0]
     extra = [p for p in c03_programs(tier, sd) if p["tag"] == "history_fail"][::(1 if tier == "thorough" else 4)] + \
-        [p for p in c06_programs(tier, sd) if p["tag"] == "inline_fail"]
+        [p for p in c06_programs(tier, sd) if p["tag"] == "inline_fail"] + \
+        [p for p in c16_programs(tier, sd) if p["tag"] in ("fault_unsat_debug", "fault_unsat")]
+    # unsatisfiable only while a block is on: toggles on one instance, instances constructed while the block is off elsewhere
+    a_, b_ = F("a"), F("b")
+    Un = {"name": "Un", "fields": [fld("a", ("u", 8)), fld("b", ("u", 8))], "blocks": [["lo", "c", [E(["<", a_, lit(10)])]], ["hi", "c", [E(["==", a_, lit(100)])]], ["bb", "c", [E([">", b_, a_])]]]}
+    extra.append({"tag": "unsat_cmode", "desc": "contradicting blocks, one switched off on one instance, later instances", "prog": {"enums": {}, "classes": [Un]},
+                  "world": [["o1", "obj", "Un"]],
+                  "ops": [["randomize", ["o1"]], ["cmode", ["o1"], "hi", False], ["randomize", ["o1"]], ["new", ["o2", "obj", "Un"]], ["randomize", ["o2"]], ["randomize", ["o1"]],
+                          ["cmode", ["o2"], "lo", False], ["randomize", ["o2"]], ["new", ["o3", "obj", "Un"]], ["randomize", ["o3"]], ["cmode", ["o1"], "hi", True], ["randomize", ["o1"]],
+                          ["new", ["o4", "obj", "Un"]], ["randomize_with", ["o4"], [E(["<", b_, lit(200)])]], ["randomize", ["o2"]]]})
+    # rand sets merged through a constant list subscript, with further statements on the scalar afterwards
+    lf = [fld("a", ("u", 8)), fld("b", ("u", 8)), ["l", "list", ["u", 8], 2, True, False], fld("n", ("u", 8), False)]
+    L0 = F("l", 0)
+    for st in ([E([">", a_, lit(3)]), E(["<", L0, lit(9)]), E(["==", a_, L0]), E(["<", a_, F("n")])],
+               [E([">", a_, lit(3)]), E(["<", L0, lit(9)]), E(["==", L0, a_]), E(["<", a_, F("n")])],
+               [E(["<", b_, lit(5)]), E([">", F("l", 1), lit(250)]), E([">", b_, F("l", 1)])],
+               [E(["<", b_, lit(5)]), E([">", F("l", 1), lit(250)]), E(["<", F("l", 1), b_]), E(["!=", b_, lit(0)])],
+               [E(["==", a_, lit(7)]), E(["==", L0, lit(8)]), E(["<=", ["+", a_, lit(0)], L0]), E(["!=", a_, F("n")])]):
+        extra.append(spec_single("satedge", "merge through a list subscript %s" % (st,), lf, st, [{"n": v} for v in (0, 4, 5, 7, 200)], calls=("randomize", "randomize_with")))
     return constfold_programs(tier, rnd) + unsat_programs(tier, rnd) + sum_edge_programs(tier, rnd) + extra + base + structure_programs(tier, rnd) + rangelist_history_programs(tier, rnd) + \
         random_programs(random.Random(sd + 1), 12000 if tier == "thorough" else 150)
 
@@ -1621,6 +1648,26 @@ def c17_programs(tier, sd):
                     "prog": {"enums": {}, "classes": [TopS]}, "world": [["top", "obj", "TopS"]],
                     "ops": [["set", ["top", "n"], 1], ["randomize", ["top"]], ["set", ["top", "n"], 0], ["randomize", ["top"]], ["set", ["top", "n"], 2],
                             ["randomize_with", ["top"], [E(["<", F("a"), lit(9)])]]]})
+    return out
+
+
+def c18_programs(tier, sd):
+    """randomization as a write path: unconstrained and lightly constrained fields of every small width / signedness (in objects, in
+    lists, free-standing) and enum fields whose enumerators are declared out of numeric order come back inside their declared type"""
+    out = []
+    EN = dict(ENUMS)
+    EN["EC"] = [["OFF", 0], ["HIGH", 7], ["LOW", 2], ["MID", 3]]            # declaration order != numeric order, last-first+1 == len
+    EN["ED"] = [["P", 5], ["Q", 4], ["R", 3]]                               # descending
+    for w in (1, 2, 3, 4, 8):
+        fields = [fld("a", ("s", w)), fld("b", ("u", w)), fld("c", ("s", w)), ["l", "list", ["s", w], 3, True, False], ["m", "list", ["u", w], 2, True, False]]
+        for st in ([], [E(["!=", F("c"), lit(0)])], [E(["<=", F("a"), F("c")])]):
+            out.append({"tag": "rand_in_type", "desc": "width %d fields, constraints %s" % (w, st), "prog": one_class(fields, st), "world": [["top", "obj", "Top"], ["f", "s", w, True], ["g", "u", w, False]],
+                        "ops": [["randomize", ["top"]], ["randomize", ["top"]], ["vsc_randomize", [["f"]]], ["vsc_randomize", [["f"], ["g"]]], ["vsc_randomize", [["top", "a"]]], ["randomize", ["top"]]]})
+    ef = [["lvl", "enum", "EC", True], ["o", "enum", "ED", True], fld("code", ("u", 8)), ["el", "list", ["enum", "EC"], 2, True, False]]
+    for st in ([], [E(["==", F("code"), F("lvl")])], [E(["<", F("code"), lit(9)]), E(["==", F("code"), F("lvl")])], [E(["!=", F("lvl"), ["enum", "EC", "OFF"]]), E(["<=", F("o"), ["enum", "ED", "Q"]])],
+               [["foreach", ["el"], "i", [E(["!=", ["it", "i"], ["enum", "EC", "LOW"]])]]], [E(["==", F("code"), F("o")])]):
+        out.append({"tag": "enum_in_type", "desc": "enums declared out of numeric order, constraints %s" % (st,), "prog": one_class(ef, st, EN), "world": [["top", "obj", "Top"]],
+                    "ops": [["randomize", ["top"]], ["randomize", ["top"]], ["randomize_with", ["top"], [E([">", F("code"), lit(0)])]], ["randomize", ["top"]]]})
     return out
 
 
